@@ -88,6 +88,7 @@ type scheduler struct {
 	fires       int
 	timers      []*vtimer
 	pending     interface{} // abort raised on a non-main thread
+	lastOp      string      // last synchronisation operation reached (for the schedule log)
 	nchan       int
 	switches    int
 	sched       []int64 // schedule choices taken (informational)
@@ -257,6 +258,9 @@ func (s *scheduler) switchTo(t *thread) {
 		return
 	}
 	s.switches++
+	if s.m.Log != nil {
+		s.m.logf("sched: goroutine %d -> goroutine %d (at %s, %s)", me.id, t.id, s.lastOp, s.m.whereAmI())
+	}
 	s.cur = t
 	t.wake <- struct{}{}
 	s.park(me)
@@ -278,9 +282,10 @@ func (s *scheduler) park(me *thread) {
 // schedPoint is called before every visible operation of a running thread.
 func (m *Machine) schedPoint(what string) {
 	s := m.sched
-	if s == nil || m.ps == nil || !s.multi {
+	if s == nil || m.ps == nil || !s.multi || m.ghostDepth > 0 {
 		return
 	}
+	s.lastOp = what
 	me := s.cur
 	// fairness for spin-waits: a thread that has gone through many
 	// synchronisation operations in a row while others are runnable offers the
@@ -376,6 +381,13 @@ func (s *scheduler) pickNext(me *thread) {
 				return
 			}
 			s.switches++
+			if m.Log != nil && me != nil {
+				why := "blocked on " + me.what
+				if me.done {
+					why = "finished"
+				}
+				m.logf("sched: goroutine %d %s -> goroutine %d (%s)", me.id, why, t.id, m.whereAmI())
+			}
 			s.cur = t
 			t.wake <- struct{}{}
 			if me != nil && !me.done {
@@ -434,6 +446,9 @@ func (s *scheduler) deadlock() {
 
 func (s *scheduler) fire(t *vtimer) {
 	s.fires++
+	if s.m.Log != nil {
+		s.m.logf("sched: timer %d fires (armed for %dns)", t.id, t.dur)
+	}
 	if !t.periodic {
 		t.active = false
 	}
